@@ -294,7 +294,8 @@ class InProtocolBase(ProtocolMixin):
 
         try:
             retval = _uuid_deserialize[ser_as](retval)
-        except (ValueError, TypeError, UnicodeDecodeError) as e:
+        except (ValueError, TypeError, UnicodeDecodeError, AttributeError) as e:
+            # uuid.UUID(5) fails with AttributeError
             raise ValidationError(e)
 
         return retval
@@ -316,7 +317,7 @@ class InProtocolBase(ProtocolMixin):
 
         try:
             retval = _uuid_deserialize[ser_as](retval)
-        except ValueError as e:
+        except (ValueError, TypeError, AttributeError) as e:
             raise ValidationError(e)
 
         return retval
